@@ -47,6 +47,9 @@ def gen_sequences(rng, cfg, count):
                 # round trip is only meaningful (and only generated) once every input has its m signatures
                 if all(len(signed[x]) >= SHAPE[cfg[x][0]][1] for x in range(len(cfg))):
                     steps.append({'op': 'roundtrip', 'j': 1, 'keys': [], 'f': '', 'pos': 0})
+            elif r < 0.66:
+                # the signatures leave the object in their exported form (as_dict) and a new transaction is built from them
+                steps.append({'op': 'export', 'j': 1, 'keys': [], 'f': '', 'pos': rng.choice([0, 1])})
             elif r < 0.78:
                 f = rng.choice(FIELDS)
                 fully = all(len(signed[x]) >= SHAPE[cfg[x][0]][1] for x in range(len(cfg)))
@@ -95,27 +98,39 @@ def run_sequences(job):
     logging.disable(logging.CRITICAL)
     from bitcoinlib.transactions import Transaction
     from bitcoinlib.keys import Key, Signature, sign as bsign
-    seed, cfg, seqs, network = job
+    seed, cfg, seqs, network = job[:4]
+    grind = job[4] if len(job) > 4 else None          # first byte the r value of the first signature shall have
     rng = random.Random(seed)
     out = []
     for steps in seqs:
-        privs = []
-        t = Transaction(network=network, witness_type='segwit' if any(w != 'legacy' for _, w in cfg) else 'legacy')
-        values = []
-        for j, (shape, wt) in enumerate(cfg):
-            n, m = SHAPE[shape]
-            ks = [Key(rng.randrange(1, ref.N), network=network) for _ in range(n)]
-            privs.append(ks)
-            v = rng.choice([100000, 2 ** 32 + 77])
-            values.append(v)
-            if n == 1:
-                t.add_input(prev_txid=bytes([j + 1]) * 32, output_n=j, keys=ks[0].public(), script_type='sig_pubkey', value=v,
-                            witness_type=wt, sequence=0xfffffffd)
-            else:
-                t.add_input(prev_txid=bytes([j + 1]) * 32, output_n=j, keys=[k.public() for k in ks], script_type='p2sh_multisig',
-                            sigs_required=m, value=v, witness_type=wt, sequence=0xfffffffd)
-        t.add_output(50000, Key(rng.randrange(1, ref.N), network=network).address())
-        t.add_output(20000, lock_script=b'\x51')
+        privs = [[Key(rng.randrange(1, ref.N), network=network) for _ in range(SHAPE[shape][0])] for shape, _ in cfg]
+        values = [rng.choice([100000, 2 ** 32 + 77]) for _ in cfg]
+        outkey = Key(rng.randrange(1, ref.N), network=network)
+
+        def build():
+            t = Transaction(network=network, witness_type='segwit' if any(w != 'legacy' for _, w in cfg) else 'legacy')
+            for j, (shape, wt) in enumerate(cfg):
+                n, m = SHAPE[shape]
+                ks = privs[j]
+                if n == 1:
+                    t.add_input(prev_txid=bytes([j + 1]) * 32, output_n=j, keys=ks[0].public(), script_type='sig_pubkey', value=values[j],
+                                witness_type=wt, sequence=0xfffffffd)
+                else:
+                    t.add_input(prev_txid=bytes([j + 1]) * 32, output_n=j, keys=[k.public() for k in ks], script_type='p2sh_multisig',
+                                sigs_required=m, value=values[j], witness_type=wt, sequence=0xfffffffd)
+            t.add_output(50000, outkey.address())
+            t.add_output(20000, lock_script=b'\x51')
+            return t
+        if grind is not None:
+            # a first signer whose signature has an r value starting with the wanted byte (exported forms are told apart
+            # by their first byte)
+            for _ in range(6000):
+                trial = build()
+                trial.sign([privs[0][0]], index_n=0, fail_on_unknown_key=False)
+                if trial.inputs[0].signatures and trial.inputs[0].signatures[0].r >> 248 == grind:
+                    break
+                privs[0][0] = Key(rng.randrange(1, ref.N), network=network)
+        t = build()
         foreign = Key(rng.randrange(1, ref.N), network=network)
         rec_steps = []
         err = None
@@ -131,6 +146,18 @@ def run_sequences(job):
                     t = Transaction.parse(t.raw(), strict=True, network=network)
                     for jj, v in enumerate(values):
                         t.inputs[jj].value = v
+                elif a['op'] == 'export':
+                    d = t.as_dict()
+                    t2 = Transaction(network=network, witness_type=t.witness_type, version=t.version_int, locktime=t.locktime)
+                    for jj, x in enumerate(t.inputs):
+                        sigs = [sg if a['pos'] == 0 else bytes.fromhex(sg) for sg in d['inputs'][jj]['signatures']]
+                        pubs = [k.public() for k in privs[jj]]
+                        t2.add_input(prev_txid=x.prev_txid, output_n=x.output_n_int, keys=pubs[0] if len(pubs) == 1 else pubs,
+                                     script_type=x.script_type, sigs_required=x.sigs_required, value=values[jj], witness_type=x.witness_type,
+                                     sequence=x.sequence, signatures=sigs)
+                    for o in t.outputs:
+                        t2.add_output(o.value, lock_script=o.lock_script)
+                    t = t2
                 elif a['op'] == 'tamper' and a['pos']:
                     # change the field in the raw bytes (pos selects the new value), then parse
                     f = a['f']
@@ -252,13 +279,19 @@ def run(replay=None):
         locktime.run_section(ck, thorough)
     if replay:
         c = replay['case']
-        jobs = [(c['seed'], [tuple(x) for x in c['kinds']], [c['steps']], c['network'])]
+        jobs = [(c['seed'], [tuple(x) for x in c['kinds']], [c['steps']], c['network']) + ((c['grind'],) if c.get('grind') is not None else ())]
     else:
         per = 140 if thorough else 16
         for ci, cfg in enumerate(CFGS):
             for part in range(4):
                 jobs.append((common.seed() + ci * 10 + part, cfg, gen_sequences(rng, cfg, per), nets[(ci + part) % 3]))
             jobs.append((common.seed() + ci * 10 + 9, cfg, systematic_sequences(cfg), nets[ci % 3]))
+            # exported signatures whose first byte looks like a DER sequence tag (0x30), an integer tag (0x02), or is zero
+            sign_all = [{'op': 'sign', 'j': j + 1, 'keys': list(range(1, SHAPE[cfg[j][0]][1] + 1)), 'f': '', 'pos': 0} for j in range(len(cfg))]
+            if ci % 3 == common.seed() % 3 or thorough:
+                for gb in (0x30, 0x02, 0x00):
+                    jobs.append((common.seed() + ci * 10 + 8, cfg, [sign_all + [{'op': 'export', 'j': 1, 'keys': [], 'f': '', 'pos': p}]
+                                                                  for p in (0, 1)], nets[ci % 3], gb))
     results = common.pmap(run_sequences, jobs)
     flat = [(job, rec) for job, res in zip(jobs, results) for rec in res]
     verdicts = common.tlc_eval('SigningEval', [{'cfg': r['cfg'], 'steps': [{'a': s['a'], 'lib': s['lib']} for s in r['steps']]}
@@ -270,7 +303,8 @@ def run(replay=None):
         desc = ' ; '.join('%s(j=%d%s%s%s)->%s' % (s['a']['op'], s['a']['j'], (' keys=%s' % s['a']['keys']) if s['a']['keys'] else '',
                                                   (' ' + s['a']['f']) if s['a']['f'] else '', (' pos=%d' % s['a']['pos']) if s['a']['pos'] else '',
                                                   'verified' if s['lib'] else 'not-verified') for s in r['steps'])
-        case = {'seed': job[0], 'kinds': [list(k) for k in r['kinds']], 'steps': [s['a'] for s in r['steps']], 'network': r['network']}
+        case = {'seed': job[0], 'kinds': [list(k) for k in r['kinds']], 'steps': [s['a'] for s in r['steps']], 'network': r['network'],
+                'grind': job[4] if len(job) > 4 else None}
         if r['error']:
             ck.violation(None, 'clause action-raised; %s on %s: %s [%s]' % (r['kinds'], r['network'], r['error'], desc), case)
             continue
